@@ -228,6 +228,74 @@ func pausedRMW(o *hc.Out, bin, scratch string) {
 	}
 }
 
+// controlFileVisibility: a writer decides whether it may take a table by LockExists / RLockExists.  For every
+// table name — including names with characters that mean something to a glob pattern, hidden names, names that are
+// prefixes of each other — a lock or read-lock file of THAT table is seen, whatever its random suffix is and whatever
+// else lies in the directory, and control files of other tables are not taken for it.
+func controlFileVisibility(o *hc.Out, g *hc.Gen, scratch string) {
+	names := []string{"t.csv", ".t.csv", "a[1].csv", "a*.csv", "q?.csv", "x[.csv", "sp ace.csv", "t.csv2", "T.CSV", "né.csv", "d]e[.tsv", "back\\slash.csv"}
+	for i, dirName := range []string{"plain", "br[a]cket", "st*r"} {
+		d := filepath.Join(scratch, fmt.Sprintf("c09v-%d-%s", i, dirName))
+		_ = os.RemoveAll(d)
+		if err := os.MkdirAll(d, 0o755); err != nil {
+			continue
+		}
+		for _, n := range names {
+			_ = os.WriteFile(filepath.Join(d, n), []byte("v\n1\n"), 0o644)
+		}
+		for _, n := range names {
+			path := filepath.Join(d, n)
+			rep := func(law string, extra map[string]interface{}) {
+				m := map[string]interface{}{"dir": dirName, "table": n}
+				for k, v := range extra {
+					m[k] = v
+				}
+				o.Law(law, m)
+			}
+			if file.RLockExists(path) || file.LockExists(path) {
+				rep("control_file_seen_without_one", nil)
+			}
+			// other tables' control files must not count
+			var others []string
+			for _, m := range names {
+				if m != n {
+					f := filepath.Join(d, "."+m+"."+file.RandomString(12)+".rlock")
+					_ = os.WriteFile(f, nil, 0o644)
+					others = append(others, f)
+				}
+			}
+			if file.RLockExists(path) {
+				rep("foreign_rlock_taken_for_own", nil)
+			}
+			for _, f := range others {
+				_ = os.Remove(f)
+			}
+			// own read locks: suffixes sorting before and after "lock", alone and next to the table's own .lock file
+			for _, suffix := range []string{"0AAAAAAAAAAA", "zzzzzzzzzzzz", "kzzzzzzzzzzz", "m00000000000", file.RandomString(12), file.RandomString(12)} {
+				for _, withLock := range []bool{false, true} {
+					rl := filepath.Join(d, "."+n+"."+suffix+".rlock")
+					_ = os.WriteFile(rl, nil, 0o644)
+					lk := filepath.Join(d, "."+n+".lock")
+					if withLock {
+						_ = os.WriteFile(lk, nil, 0o644)
+					}
+					if !file.RLockExists(path) {
+						rep("rlock_not_seen", map[string]interface{}{"rlock": filepath.Base(rl), "own_lock_present": withLock})
+					}
+					if withLock && !file.LockExists(path) {
+						rep("lock_not_seen", nil)
+					}
+					_ = os.Remove(rl)
+					_ = os.Remove(lk)
+					o.Eval()
+				}
+			}
+		}
+		o.NonTrivial("visibility:" + dirName)
+		_ = os.RemoveAll(d)
+	}
+}
+
 // lockTimeouts: while one handler holds the table for update (or for read), a second one that cannot get
 // access within its wait timeout must fail with the lock-timeout error and change nothing.
 func lockTimeouts(o *hc.Out, scratch string, rounds int) {
@@ -399,6 +467,7 @@ func run(seed int64, n int, dir string, _ []string) {
 		accessForms(o, bin, scratch)
 	}
 	lockTimeouts(o, scratch, 2+n/100)
+	controlFileVisibility(o, g, scratch)
 	for it := 0; it < n; it++ {
 		nproc := 2 + g.Intn(2)
 		if g.Intn(6) == 0 {
